@@ -781,6 +781,122 @@ func checkNRegForms(b []byte, p *spec.Parsed, vals []float32) error {
 
 var subPublic = harness.Define("public-paths", "batches of values through SetLOD, SetNReg, low/high-resolution path coordinates, arc radius/rotation/flags: widths read back from the bytes must be the shortest exact ones (naturals, reals, coordinates), SetNReg picks the shortest of its three forms with real < coordinate < zero-to-one on ties, decoded values obey the exact/4-ulp/nearest-1/64 rules; non-trivial = batch contains a value that is not a small integer", checkPublic)
 
+// ---------------------------------------------------------------- runs of lines and of arcs
+
+// RunCase: one path with a run of line segments followed by a run of consecutive arcs (one run
+// may span several opcodes). Whatever the other numbers of the run look like, every number is
+// written by the same rules.
+type RunCase struct {
+	HiRes bool         `json:"hires"`
+	Lines [][2]ops.F32 `json:"lines"`
+	Arcs  [][5]ops.F32 `json:"arcs"` // rx, ry, rotation, x, y (flags fixed: large arc, no sweep)
+}
+
+func checkRuns(c RunCase) error {
+	var enc encode.Encoder
+	enc.HighResolutionCoordinates = c.HiRes
+	enc.StartPath(0, 0, 0)
+	for _, l := range c.Lines {
+		enc.AbsLineTo(float32(l[0]), float32(l[1]))
+	}
+	for _, a := range c.Arcs {
+		enc.RelArcTo(float32(a[0]), float32(a[1]), float32(a[2]), true, false, float32(a[3]), float32(a[4]))
+	}
+	enc.ClosePathEndPath()
+	b, err := enc.Bytes()
+	if err != nil {
+		return harness.Violatef("c08/public-bytes", "Bytes: %v", err)
+	}
+	rec := &ops.Recorder{}
+	if err := decode.Decode(rec, b); err != nil {
+		return harness.Violatef("c08/public-decode", "Decode: %v", err)
+	}
+	if len(rec.Ops) != 2+len(c.Lines)+len(c.Arcs)+1 {
+		return harness.Violatef("c08/public-count", "decoded %d calls from a path of %d lines and %d arcs", len(rec.Ops), len(c.Lines), len(c.Arcs))
+	}
+	coord := func(f, g float32, what string) error {
+		if !c.HiRes && f >= -128 && f < 128 {
+			if !lowResOK(f, g) {
+				return harness.Violatef("c08/public-quantize", "%s: low-resolution %v came back as %v", what, ops.F32(f), ops.F32(g))
+			}
+			return nil
+		}
+		if !thirty(spec.Coordinate, f, g) {
+			return harness.Violatef("c08/public-coordinate", "%s: %v came back as %v", what, ops.F32(f), ops.F32(g))
+		}
+		return nil
+	}
+	for i, l := range c.Lines {
+		o := rec.Ops[2+i]
+		for j := 0; j < 2; j++ {
+			if err := coord(float32(l[j]), o.Arg(j), fmt.Sprintf("line %d of the run, operand %d", i, j)); err != nil {
+				return err
+			}
+		}
+	}
+	for i, a := range c.Arcs {
+		o := rec.Ops[2+len(c.Lines)+i]
+		for k, j := range []int{0, 1, 3, 4} {
+			if err := coord(float32(a[j]), o.Arg(j), fmt.Sprintf("arc %d of the run, operand %d", i, k)); err != nil {
+				return err
+			}
+		}
+		x, g := float64(float32(a[2])), float64(o.Arg(2))
+		d := math.Abs((x - math.Floor(x)) - (g - math.Floor(g)))
+		if d > 0.5 {
+			d = 1 - d
+		}
+		if !(d <= 1e-6) {
+			return harness.Violatef("c08/public-angle", "arc %d of the run: rotation %v came back as %v", i, a[2], ops.F32(o.Arg(2)))
+		}
+	}
+	return nil
+}
+
+var subRuns = harness.Define("public-runs", "a run of 0-70 line segments followed by a run of 0-20 consecutive arcs through Encoder -> Decode, low and high resolution: every coordinate by the low-resolution or 30-bit rule, every rotation modulo one turn; classes: a first stretch of whole numbers (16, 17, 32, 33 or 40 segments) followed by off-grid values, arcs that share radii and flags and differ in rotation only; non-trivial = either class", checkRuns)
+
+func TestPublicRuns(t *testing.T) {
+	harness.Rapid(t, harness.N(3000, 16*30000), func(t *rapid.T) {
+		c := RunCase{HiRes: rapid.IntRange(0, 3).Draw(t, "hires") == 0}
+		var labels []string
+		val := func(l string) ops.F32 {
+			if rapid.Bool().Draw(t, l+".grid") {
+				return ops.F32(float32(rapid.IntRange(-130*64, 130*64).Draw(t, l)) / 64)
+			}
+			return ops.F32(float32(rapid.Float64Range(-140, 140).Draw(t, l+".any")))
+		}
+		whole := 0
+		if rapid.Bool().Draw(t, "wholefirst") {
+			whole = rapid.SampledFrom([]int{16, 17, 32, 33, 40}).Draw(t, "whole")
+			labels = append(labels, "whole-numbers-first-then-off-grid")
+		}
+		for i := 0; i < whole; i++ {
+			c.Lines = append(c.Lines, [2]ops.F32{ops.F32(float32(rapid.IntRange(-100, 100).Draw(t, "wx"))), ops.F32(float32(rapid.IntRange(-100, 100).Draw(t, "wy")))})
+		}
+		for i, n := 0, rapid.IntRange(0, 30).Draw(t, "nlines"); i < n; i++ {
+			c.Lines = append(c.Lines, [2]ops.F32{val("lx"), val("ly")})
+		}
+		na := rapid.IntRange(0, 20).Draw(t, "narcs")
+		same := na >= 2 && rapid.Bool().Draw(t, "sameradii")
+		if same {
+			labels = append(labels, "arcs-differing-in-rotation-only")
+		}
+		r := val("r")
+		for i := 0; i < na; i++ {
+			a := [5]ops.F32{val("rx"), val("ry"), ops.F32(float32(rapid.IntRange(0, 239).Draw(t, "rot")) / 120), val("ax"), val("ay")}
+			if same {
+				a[0], a[1] = r, r
+				if rapid.Bool().Draw(t, "samexy") {
+					a[3], a[4] = 1, 2
+				}
+			}
+			c.Arcs = append(c.Arcs, a)
+		}
+		subRuns.See(c, len(labels) > 0, harness.HashJSON(c), labels...)
+		subRuns.Run(t, c)
+	})
+}
+
 func TestPublicPaths(t *testing.T) {
 	harness.Rapid(t, harness.N(4000, 16*32000), func(t *rapid.T) {
 		n := rapid.IntRange(1, 40).Draw(t, "n")
